@@ -89,8 +89,12 @@ def gen(rng):
             ops.append(("drop", w))
             holds[w] = set()
             carriers = [c for c in carriers if c["holder"] != w]
-        elif k < 62:
+        elif k < 57:
             ops.append(("self", o))
+        elif k < 62:
+            # a give that FAILS to pack after the object has already been marshalled into the transit buffer (an unmarshalable
+            # value comes later in the message): the reference taken for the transit must be given back
+            ops.append(("failgive", o, rng.choice(["flat", "nested", "select", "worker"]), w))
         elif k < 78:
             msgs = [gen_msg(rng, nobj) for _ in range(rng.range(1, 3))]
             hk = rng.below(3)
@@ -163,6 +167,12 @@ def render(scn):
             o.append("  (call %d [:drop nil (backs %d)])" % (op[1], op[1]))
         elif op[0] == "self":
             o.append("  (do (ev/give loopc [(objs %d)]) (if (not= ((ev/take loopc) 0) (objs %d)) (print \"SELF-MISMATCH\")))" % (op[1], op[1]))
+        elif op[0] == "failgive":
+            tgt = "(reqs %d)" % op[3] if op[2] == "worker" else "loopc"
+            val = {"flat": "[(objs %d) (parser/new)]", "nested": "[1 @{:a (objs %d)} [(objs %d) \"s\" (parser/new)] (objs %d)]",
+                   "select": "[(objs %d) @[(parser/new)]]", "worker": "[:echo (objs %d) (parser/new)]"}[op[2]].replace("%d", str(op[1]))
+            call = "(ev/select [%s %s])" % (tgt, val) if op[2] == "select" else "(ev/give %s %s)" % (tgt, val)
+            o.append("  (if (= :returned (try (do %s :returned) ([e] :raised))) (print \"FAILGIVE-RETURNED\"))" % call)
         elif op[0] == "strand":
             # the carrier and the fresh objects live only in the frame of this call (popped on return: no stale stack slot keeps them)
             gives = " ".join("(ev/give m [%s])" % render_items(m) for m in op[2])
@@ -220,7 +230,7 @@ def oracle(scn, rc, out, err):
         if rc != 0:
             bad.append(("refcount-run-failed", "refcount scenario did not run to completion: rc=%r out tail %r stderr %s" % (rc, lines[-3:], err[-400:])))
         for l in lines:
-            if l.startswith(("ECHO-MISMATCH", "SELF-MISMATCH", "NOT-FINISHED", "SCRIPT-ERROR")):
+            if l.startswith(("ECHO-MISMATCH", "SELF-MISMATCH", "NOT-FINISHED", "SCRIPT-ERROR", "FAILGIVE-RETURNED")):
                 bad.append(("shared-object-identity", "shared object came back as a different object / script failed: " + l))
         checks = [l.split()[1:] for l in lines if l.startswith("RC ")]
         for chk in checks:
